@@ -10,10 +10,23 @@ import (
 var Keys = []string{"a", "b", "c", "d", "e", "id", "k k", "é", "A1", "_x"}
 
 // StrPool: strings of 1- to 4-byte code points, empty, number-like, etc.
-var StrPool = []string{"a", "b", "c", "abc", "", "é", "aé𝌆b", "✓", "x y", "A", "10", "1", "true", "ab", "ba", "zz", "日本", "a,b", "aa"}
+var StrPool = []string{"a", "b", "c", "abc", "", "é", "aé𝌆b", "✓", "x y", "A", "10", "1", "true", "ab", "ba", "zz", "日本", "a,b", "aa",
+	"\ud7ff", "\ue000", "\uffff", "\U00010000", "e\u0301", "\u200b", "\u05d0\u05d1", "null", "0", " a ", "a\tb", "abcabcabcabcabcabc", "-1", "1e2", "\ufffd", "ß", "İ", "ǆ"}
+
+// LongStrings: occasionally used instead of the pool (length-dependent paths)
+func LongString(r *R) string {
+	n := []int{15, 16, 17, 31, 32, 33, 63, 64, 65, 127, 128, 255, 256, 300}[r.Intn(14)]
+	unit := Pick(r, []string{"a", "ab", "é", "a✓", "𝌆", "xyz,"})
+	var b []byte
+	for len(b) < n {
+		b = append(b, unit...)
+	}
+	return string(b)
+}
 
 // NumPool: number spellings (JSON text).
-var NumPool = []string{"0", "1", "-1", "2", "3", "10", "2.5", "-0.5", "1.0", "1e2", "100", "9007199254740993", "0.1", "0.2", "7", "-3", "4", "5", "1.50", "12345678901234567890"}
+var NumPool = []string{"0", "1", "-1", "2", "3", "10", "2.5", "-0.5", "1.0", "1e2", "100", "9007199254740993", "0.1", "0.2", "7", "-3", "4", "5", "1.50", "12345678901234567890",
+	"255", "256", "65535", "65536", "2147483647", "2147483648", "-2147483649", "4294967296", "9007199254740992", "9223372036854775807", "-9223372036854775808", "1e15", "1e16", "1E21", "-0", "0.0", "1e-7", "0.30000000000000004", "12", "13", "1.5E1", "99999999999999999999999999999999"}
 
 func Num(txt string) ref.Num {
 	n, ok := ref.ParseNumber(txt)
@@ -35,6 +48,9 @@ func Scalar(r *R) ref.V {
 	case 2:
 		return Num(Pick(r, NumPool))
 	case 3:
+		if r.Chance(4) {
+			return LongString(r)
+		}
 		return Pick(r, StrPool)
 	}
 	return IntV(int64(r.Intn(20) - 5))
@@ -63,12 +79,23 @@ func Object(r *R, depth int) *ref.Obj {
 	for i := 0; i < n; i++ {
 		o.Set(Pick(r, Keys), Doc(r, depth-1))
 	}
+	if r.Chance(3) {
+		// more than 8 members: a Go map of this size has several buckets
+		for i := 0; i < 9+r.Intn(30); i++ {
+			o.Set(Pick(r, Keys)+string(rune('a'+i%26))+string(rune('0'+i/26)), Scalar(r))
+		}
+	}
 	return o
 }
 
 // Array draws a heterogeneous or homogeneous array.
 func Array(r *R, depth int) *ref.Arr {
 	n := r.Weighted([]int{10, 12, 20, 20, 15, 10, 8, 5})
+	if r.Chance(5) {
+		// lengths around the thresholds of sort routines, map growth, small-size fast paths
+		n = []int{8, 9, 12, 13, 14, 16, 17, 32, 33, 64, 65, 70}[r.Intn(12)]
+		depth = 1
+	}
 	a := &ref.Arr{E: make([]ref.V, 0, n)}
 	switch r.Intn(4) {
 	case 0: // numbers
@@ -91,6 +118,10 @@ func Array(r *R, depth int) *ref.Arr {
 // with occasional nulls, scalars and missing members.
 func Records(r *R, depth int) *ref.Arr {
 	n := 1 + r.Intn(6)
+	if r.Chance(6) {
+		n = []int{9, 12, 13, 14, 17, 33, 40}[r.Intn(7)]
+		depth = 1
+	}
 	nk := 1 + r.Intn(4)
 	keys := make([]string, nk)
 	kinds := make([]int, nk)
